@@ -105,7 +105,7 @@ def run(tier):
     cases, meta = gen_cases("MC_BlockRecord.tla", cfg, workers=4, timeout=1500)
     chk.states += meta["distinct"]
     chk.transitions += meta["generated"]
-    t1, t2 = pipeline(chk, wd, cases, 4000 if tier == "quick" else 100000, 2 if tier == "quick" else 12)
+    t1, t2 = pipeline(chk, wd, cases, 4000 if tier == "quick" else 60000, 2 if tier == "quick" else 12)
     classes = {}
     n_rust = n_py = 0
     panics = 0
